@@ -16,6 +16,9 @@ CHECKS = {
    text="The size invariant held after every step of every generated history, and a limited twin store rejected a block exactly when its true content size exceeded the limit.",
    note="Trusts Iter() as the real content; limits set through the verif-tagged hook."),
 }
+CHECKS["C01"]=dict(level="exploration", design="DESIGN.md §3 C01", technique="runtime monitoring: differential oracle (REF-LINEAR sequential run of the real executors) over recorded tier1 streams, host-call logs and decoded cache files of generated packages x request sequences x PRNG job-completion orders",
+   text="Held on every generated package x request sequence explored: the in-process tier1/tier2 cluster (real scheduler, squasher, walker, linear pipeline, real module hashes, real files) returned exactly the payloads of the sequential reference, every store read of every module execution anywhere returned the reference value, the stores handed to the linear phase and every cache file left behind decode to the reference content.",
+   note="Trusts REF-LINEAR assembly and the native module runtime (wazero not exercised); fork-free chain; wall-clock is used only to explore completion orders and in the stuck watchdog, never in a verdict on values.")
 NOT_YET = {}
 def main():
     checks=[]
